@@ -308,6 +308,9 @@ class SimplicialComplex(Hypergraph):
         except TypeError:
             raise XGIError("The simplex cannot be cast to a frozenset.")
 
+        if None in members:
+            raise XGIError("None cannot be a node or edge")
+
         if self.has_simplex(members):
             return
 
@@ -486,6 +489,9 @@ class SimplicialComplex(Hypergraph):
                     warn(f"uid {idx} already exists, cannot add simplex {members}.")
                     continue
 
+                if None in members:
+                    raise XGIError("None cannot be a node or edge")
+
                 if max_order is not None:
                     if len(members) > max_order + 1:
                         combos = powerset(members, include_singletons=False)
@@ -574,6 +580,9 @@ class SimplicialComplex(Hypergraph):
                     break
 
                 continue
+
+            if None in members:
+                raise XGIError("None cannot be a node or edge")
 
             # needs to go after the check for existence, otherwise
             # we're skipping ID numbers when edges already exist
